@@ -86,7 +86,11 @@ def h_verify_claims_summary(it, st, args, node):
 def common_obj(st, name, stale):
     """a builder/checker object: configuration symbolic, error state clean or stale"""
     o = ('obj', name)
-    if stale:
+    if isinstance(stale, tuple):
+        # an explicit abstract error state (flag, 'empty' | 'nonempty')
+        st.mem[(o, 'error')] = Int(stale[0])
+        st.mem[(o, 'error_msg#')] = stale[1]
+    elif stale:
         st.mem[(o, 'error')] = Int(1)
         st.mem[(o, 'error_msg#')] = 'nonempty'
     else:
@@ -136,3 +140,70 @@ def require_reached(names, what):
     if missing:
         raise AnalysisBroken('%s: the interpreter never reached %s (harness or anchor broken: the path rules would pass vacuously)'
                              % (what, ', '.join(missing)))
+
+
+def error_state_writers(prog, unit, record, skip=()):
+    """externally visible functions of a unit that take a pointer to `record` and can (transitively) write its error flag or message
+    (effect analysis, not names): [(name, [param is pointer?], index of the object parameter)]"""
+    import effects
+    eff = effects.Effects(prog)
+    out = []
+    for key, info in sorted(eff.funcs.items()):
+        if key[0] != unit or key[1] in skip:
+            continue
+        decl = info['decl']
+        if decl.get('storageClass') == 'static':
+            continue
+        params = [c for c in decl.get('inner', ()) if c.get('kind') == 'ParmVarDecl']
+        idx = None
+        for i, p_ in enumerate(params):
+            t = p_.get('type', {}).get('qualType', '')
+            if record in t and '*' in t and '**' not in t:
+                idx = i
+                break
+        if idx is None:
+            continue
+        seen, _ = eff.reachable([key])
+        if any(st_[1] in ('error', 'error_msg') and record.replace('_t', '') in str(st_[0])
+               for k in seen if k in eff.funcs for st_ in eff.funcs[k]['stores']):
+            out.append((key[1], ['*' in p_.get('type', {}).get('qualType', '') for p_ in params], idx))
+    return out
+
+
+def error_state_closure(prog, env, model, variant, start, skip):
+    """abstract error states (flag, message empty/non-empty) a builder/checker object can be in between calls: closure of `start`
+    under the small API functions that write the error state (the big entry points add their own exit states in the caller)"""
+    from props import tables as T
+    from model import msg_state as _ms
+    unit = T.VARIANT_UNIT[variant]
+    record = 'jwt_%s_t' % variant
+    writers = error_state_writers(prog, unit, record, skip=skip)
+    done, work, log = set(), list(start), []
+    while work:
+        es = work.pop()
+        if es in done:
+            continue
+        done.add(es)
+        for name, ptrs, idx in writers:
+            it = Interp(prog, unit, model=model, rule=Rule(), budget=200000, hooks=std_hooks(env))
+            st = State()
+            o = common_obj(st, variant, es)
+            set_cb(st, o, True)
+            set_key(st, o, env, 'sym')
+            args = [Ref(o) if i == idx else Term(('arg', name, i), ptr=p_) for i, p_ in enumerate(ptrs)]
+            try:
+                res = it.run(name, args, st)
+            except AnalysisBroken:
+                raise
+            outs = set()
+            for s_, rv in res:
+                fl = flag_of(s_, o)
+                ms = _ms(it, s_, o, 'error_msg')
+                for f_ in ((0, 1) if fl is None else (1 if fl else 0,)):
+                    for m_ in (('empty', 'nonempty') if ms == 'unknown' else (ms,)):
+                        outs.add((f_, m_))
+            log.append('%s from %s -> %s' % (name, es, sorted(outs)))
+            for ns in outs:
+                if ns not in done:
+                    work.append(ns)
+    return sorted(done), [w[0] for w in writers], log
